@@ -7,11 +7,16 @@ class Contract:
         self.key = key
         self.cls = kw.pop("cls", None)              # class name of self, if a method
         self.types = kw.pop("types", {})            # param -> kind
+        self.free = kw.pop("free", {})              # free variables of a nested function (closure) -> kind
         self.result = kw.pop("result", "V")         # kind of result
         self.ghost = kw.pop("ghost", {})            # ghost input name -> kind (universally quantified)
         self.ghost_at_call = kw.pop("ghost_at_call", {})  # ghost name -> expr (callee frame) used at call sites
         self.requires = _named(kw.pop("requires", []), "pre")
-        self.ensures = _named(kw.pop("ensures", []), "post")
+        ens = _named(kw.pop("ensures", []), "post")
+        # clauses about the call trace of *this* activation are obligations of the function itself and are
+        # never assumed by callers (the callee's events are not part of the caller's trace)
+        self.trace = [c for c in ens if _is_trace(c[1])] + _named(kw.pop("trace", []), "trace")
+        self.ensures = [c for c in ens if not _is_trace(c[1])]
         self.raises = kw.pop("raises", {})          # ExcName -> dict(when=expr|None, ensures=[...], unchanged=bool)
         self.raises_only = kw.pop("raises_only", None)  # None or set of exception names allowed to escape
         self.on_raise = _named(kw.pop("on_raise", []), "exc")  # obligations on every exceptional exit
@@ -34,6 +39,13 @@ class Contract:
         self.hooks = kw.pop("hooks", {})            # misc hooks
         if kw:
             raise TypeError(f"unknown contract fields for {key}: {sorted(kw)}")
+
+
+TRACE_FNS = ("call_arg(", "called(", "call_result(", "called_before(", "last_call_is(", "ncalled(")
+
+
+def _is_trace(text):
+    return any(t in text for t in TRACE_FNS)
 
 
 def _named(lst, prefix):
